@@ -64,7 +64,7 @@ type c13Run struct {
 	idx                                                                                                                         int64
 	ops                                                                                                                         []aop
 	viol                                                                                                                        bool
-	nForged, nCorrective, nReplies, nRejects, nCycles, nRelayed, nAltStarts, nUnicastReq, nConfirms, nStopOtherFamily, nWindows int
+	nForged, nCorrective, nReplies, nRejects, nCycles, nRelayed, nAltStarts, nUnicastReq, nConfirms, nStopOtherFamily, nWindows, nClaims int
 	window                                                                                                                      bool
 }
 
@@ -203,6 +203,20 @@ func (r *c13Run) history() {
 				off := offers[string(tgt.MAC)]
 				ev.extra = fmt.Sprintf("%v|%v", probed, off)
 				feed(arpFrom(tgt, 1, ip4zero, probed, refdec.MAC{}))
+			case "router-claim":
+				// an address conflict: another station (a target or a stranger) announces the router's address as its own; what
+				// the session then tracks for that address is not the router any more - the frames this host forges and the
+				// corrective packet still have to carry the router's real MAC (NICInfo)
+				who := tgt
+				if o.P%2 == 0 {
+					who = packet.Addr{MAC: net.HardwareAddr{0x02, 0xc1, 0x3a, 0, 0, 0x99}, IP: nic.RouterIP}
+				}
+				if o.P < 2 {
+					feed(arpFrom(who, 1, nic.RouterIP, nic.RouterIP, bcastMAC))
+				} else {
+					feed(arpFrom(who, 2, nic.RouterIP, nic.RouterIP, bcastMAC))
+				}
+				r.nClaims++
 			case "announce":
 				feed(arpFrom(tgt, 1, tgt.IP, tgt.IP, bcastMAC))
 			case "reply":
@@ -538,6 +552,9 @@ func randAop(r *rand.Rand) aop {
 		o.K = "probe"
 	case k < 16:
 		o.K = "announce"
+		if r.Intn(3) == 0 {
+			o.K = "router-claim"
+		}
 	case k < 17:
 		o.K = "reply"
 	case k < 19:
@@ -573,6 +590,7 @@ func runC13(c *wk.Ctx) {
 		c.Obs("relayed_requests_mixed_hunt_state", int64(run.nRelayed))
 		c.Obs("router_requests_sent_unicast", int64(run.nUnicastReq))
 		c.Obs("dhcp_confirmations", int64(run.nConfirms))
+		c.Obs("router_address_claimed_by_another_station", int64(run.nClaims))
 		c.Obs("histories_with_send_window", int64(run.nWindows))
 		c.Obs("stophunt_with_ipv6_or_no_address", int64(run.nStopOtherFamily))
 		c.Obs("starthunt_with_another_ip", int64(run.nAltStarts))
